@@ -4,7 +4,7 @@ from __future__ import annotations
 from dpapi_ng import _asn1
 
 from symex import values as V
-from vlib.api import all_of, harness, ite
+from vlib.api import all_of, any_of, harness, ite
 
 from . import refs
 
@@ -317,3 +317,20 @@ def reader_histories(c, hist, n1):
             ok.append(ob[1] == (pos < 3))
     c.check(all_of([x if isinstance(x, (bool, V.SymBool)) else bool(x) for x in ok]), "reader history: every operation acted at the current position")
     return len(obs)
+
+
+@harness(P, per_job=True, params=lambda tier: [dict(n=n) for n in ([1, 2] if tier == "quick" else [1, 2, 3])], max_steps=400000,
+         bounds="UTF8String whose first n code points are solver variables over the whole of Unicode except the surrogates (every UTF-8 length class, U+FEFF and other format "
+         "characters included), followed by 'z': the content equals an independent RFC 3629 encoding and reads back as the same text", outside="longer symbolic prefixes",
+         must_reach=("utf8 text: content is the RFC 3629 encoding", "utf8 text: read back"))
+def utf8_text(c, n):
+    cps = [c.int(f"cp{i}", 0, 0x10FFFF) for i in range(n)]
+    for cp in cps:
+        c.assume(any_of([cp < 0xD800, cp > 0xDFFF]))
+    text = V.SymStr([("chr", cp) for cp in cps] + ["z"]).norm() if c.symbolic else "".join(chr(cp) for cp in cps) + "z"
+    content = refs.cat(*[refs.utf8_of(cp) for cp in cps], b"z")
+    enc = c.call(_asn1._pack_asn1_utf8_string, text)
+    c.check(enc == refs.der_tlv(0, False, 12, content), "utf8 text: content is the RFC 3629 encoding")
+    v, used = c.call(_asn1._read_asn1_utf8_string, enc)
+    c.check(all_of([v == text, used == len(enc)]), "utf8 text: read back")
+    return used
